@@ -44,27 +44,35 @@ Proof.
   - apply IH; [exact Hl|]. intros x y Hx Hy. apply I; now right.
 Qed.
 
+Lemma nseq_from_eq : forall k a, nseq_from k a = map N.of_nat (seq (N.to_nat a) k).
+Proof.
+  induction k as [|k IH]; intros a; cbn [nseq_from seq map]; [reflexivity|].
+  rewrite IH. replace (N.to_nat (a + 1)) with (S (N.to_nat a)) by lia. f_equal. lia.
+Qed.
+Lemma nseq_eq : forall n, nseq n = map N.of_nat (seq 0 (N.to_nat n)).
+Proof. intros n. unfold nseq. now rewrite nseq_from_eq. Qed.
+
 Lemma nseq_in : forall n x, In x (nseq n) <-> x < n.
 Proof.
-  intros n x. unfold nseq. rewrite in_map_iff. split.
+  intros n x. rewrite nseq_eq. rewrite in_map_iff. split.
   - intros (k & <- & Hk). apply in_seq in Hk. lia.
   - intros H. exists (N.to_nat x). split; [lia|]. apply in_seq. lia.
 Qed.
 
 Lemma nseq_nodup : forall n, NoDup (nseq n).
 Proof.
-  intros n. unfold nseq. apply Injective_map_NoDup; [|apply seq_NoDup].
+  intros n. rewrite nseq_eq. apply Injective_map_NoDup; [|apply seq_NoDup].
   intros a b H. lia.
 Qed.
 
 Lemma nseq_succ : forall n, nseq (n + 1) = nseq n ++ [n].
 Proof.
-  intros n. unfold nseq. replace (N.to_nat (n + 1)) with (N.to_nat n + 1)%nat by lia.
+  intros n. rewrite !nseq_eq. replace (N.to_nat (n + 1)) with (N.to_nat n + 1)%nat by lia.
   rewrite seq_app, map_app. cbn. f_equal. f_equal. lia.
 Qed.
 
 Lemma nseq_length : forall n, length (nseq n) = N.to_nat n.
-Proof. intros. unfold nseq. now rewrite map_length, seq_length. Qed.
+Proof. intros. rewrite nseq_eq. now rewrite map_length, seq_length. Qed.
 
 Lemma map_flat_map : forall {A B C} (g : B -> C) (f : A -> list B) (l : list A),
   map g (flat_map f l) = flat_map (fun x => map g (f x)) l.
